@@ -561,3 +561,41 @@ def correspond(pid, cases, stage="parse", check_tokens=False):
             res[i] = {"status": "agree", "nodes": len(oids)}
         res[i]["oracle_tests"] = ot
     return res
+
+
+# ---------------------------------------------------------------- round 2: measured statements
+
+def model_measure(pid, cmd, cases):
+    """Evaluate an extracted check (driver commands total / xfchk / agree) on the real token trees of `cases`.
+    Returns a list of dicts {"reply": str, "lexer_ok": bool} (None where markdown-it fails).  For `agree` the request is
+    built for the Sphinx configuration and the O_dyn oracle holds the recorded runs of both back ends."""
+    from gen import c02_lib as L
+    items, idx, res = [], [], [None] * len(cases)
+    for i, case in enumerate(cases):
+        try:
+            cfg = L.make_config(case.get("mode", "myst"), list(case.get("exts") or ()), **dict(case.get("kw") or {}))
+            root, toks, env = L.token_tree(cfg, case["text"])
+        except Exception:
+            continue
+        dyn = None
+        if has_dynamic(root):
+            dyn = {}
+            for be in (("docutils", "sphinx") if cmd == "agree" else (case.get("backend", "docutils"),)):
+                try:
+                    impl_parse(dict(case, backend=be), "parse")
+                    dyn.update(impl_parse.last_dynamic)
+                except Exception:
+                    pass
+        c = dict(case, backend="sphinx") if cmd == "agree" else case
+        items.append((c, root, len(env.get("duplicate_refs", [])), dyn))
+        idx.append(i)
+    replies, _ = model_render(pid, cmd, items) if items else ([], 0)
+    tables = getattr(model_render, "last_tables", [])
+    strip1 = lambda x: x[:-1] if x.endswith("\n") else x   # noqa: E731
+    for j, i in enumerate(idx):
+        lex_ok = True
+        for (name, key), val in (tables[j].items() if j < len(tables) else ()):
+            if name == "lex" and val is not None and strip1("".join(v for _, v in val)) != strip1(key[1]):
+                lex_ok = False
+        res[i] = {"reply": replies[j], "lexer_ok": lex_ok}
+    return res
